@@ -283,22 +283,50 @@ def BodyStmt.shapesL : List BodyStmt → List Shape
 def FnDecl.sourceShape (f : FnDecl) : Shape :=
   .node (f.params.map (·.1) ++ BodyStmt.letsL f.body) (BodyStmt.shapesL f.body)
 
-/-- value records declared directly in a block: declarations of its stack that are in no child's stack -/
-def Block.directDecls (b : Block) : List Value :=
-  (declValues b.context).filter fun v => !(b.children.any fun c => (declValues c.context).contains v)
+/-- what the value-table clause looks at: per block its value table, the value records its stack
+declares (in order) and the same for its children -/
+inductive DT where
+  | node (values : List (Name × Value)) (decls : List Value) (children : List DT)
+  deriving Inhabited
 
+def DT.values : DT → List (Name × Value) | .node v _ _ => v
+def DT.decls : DT → List Value | .node _ d _ => d
+def DT.children : DT → List DT | .node _ _ c => c
+
+mutual
+def Block.dt : Block → DT
+  | ⟨values, _, _, _, _, children, context⟩ => .node values (declValues context) (Block.dtL children)
+def Block.dtL : List Block → List DT
+  | [] => []
+  | b :: bs => Block.dt b :: Block.dtL bs
+end
+
+/-- value records declared directly in a block: declarations of its stack that are in no child's
+stack (`inner`: the declarations of the stack of a child that is still being analysed) -/
+def DT.directDecls (t : DT) (inner : List Value) : List Value :=
+  t.decls.filter fun v => !(t.children.any fun c => c.decls.contains v) && !(inner.contains v)
+
+/-- the value table is what inserting the block's direct declarations under the names `lets`, in
+order, yields -/
+def tabOk (lets : List Name) (values : List (Name × Value)) (decls : List Value) : Bool :=
+  let expected := (lets.zip decls).foldl (fun acc (n, v) => assocInsert n v acc) []
+  lets.length == decls.length &&
+  expected.length == values.length &&
+  expected.all (fun (n, v) => assocGet n values == some v)
+
+mutual
 /-- each block's value table holds exactly the names declared directly in it, bound to their
 latest declaration (for accepted well-formed functions) -/
-partial def valuesOk (sh : Shape) (b : Block) : Bool :=
-  match sh with
-  | .node lets cs =>
-    let decls := b.directDecls
-    let expected := (lets.zip decls).foldl (fun acc (n, v) => assocInsert n v acc) []
-    lets.length == decls.length &&
-    expected.length == b.values.length &&
-    expected.all (fun (n, v) => assocGet n b.values == some v) &&
-    cs.length == b.children.length &&
-    (cs.zip b.children).all fun (s, c) => valuesOk s c
+def valuesOkD : Shape → DT → Bool
+  | .node lets cs, .node values decls children =>
+    tabOk lets values ((DT.node values decls children).directDecls []) && valuesOkDL cs children
+def valuesOkDL : List Shape → List DT → Bool
+  | [], [] => true
+  | s :: ss, t :: ts => valuesOkD s t && valuesOkDL ss ts
+  | _, _ => false
+end
+
+def valuesOk (sh : Shape) (b : Block) : Bool := valuesOkD sh b.dt
 
 def P_C18_shape (p : Program) (r : Result) (linksOk : Bool) : List String :=
   (if linksOk then [] else ["c18:parent-link-wrong"]) ++
